@@ -21,7 +21,7 @@ def w_summary(kind, suffix='', share=None):
         ctx = models.InputCtx(_W['lmax'][kind], suffix=suffix, share=share)
         paths = v1sum.summarize(_W['prog'], kind, ctx, scripts=_W['scripts'][kind])
         import props_v1
-        props_v1.annotate(_W['prog'], kind, paths)
+        props_v1.annotate(_W['prog'], kind, paths, ctx)
         _W['sum'][key] = (ctx, paths)
     return _W['sum'][key]
 
